@@ -37,7 +37,7 @@ def load_json(path, default):
 def select_tasks(pid):
     RUN.setup()
     C = RUN._STATE['contracts']
-    funcs = [q for q, c in C.CONTRACTS.items() if pid in c.props and c.verify]
+    funcs = [q for q, c in C.VERIFY.items() if pid in c.props and c.verify and not c.trusted]
     lemmas = []
 
     def need(name):
@@ -47,7 +47,7 @@ def select_tasks(pid):
                     lemmas.append(d)
             lemmas.append(name)
     for q in funcs:
-        for n in C.CONTRACTS[q].lemmas:
+        for n in C.VERIFY[q].lemmas:
             need(n)
     for n, l in C.LEMMAS.items():
         if pid in l.props:
